@@ -208,6 +208,24 @@ class World:
         for ms in mspecs:
             cls = modgen.build_class(ms, events, hw=hw)
             cfg[ms['name']] = modgen.module_cfg(ms, cls)
+            # the configuration widens the datatype of some changeable parameters beyond what the class declares: the
+            # description shows the configured datatype and the node accepts exactly what it describes
+            for p in ms['params']:
+                sp = p['spec']
+                if p['name'] in ('value', 'target', 'status') or p['readonly'] or p['constant'] is not None or p.get('limits') or rng.random() > 0.3:
+                    continue
+                if sp['type'] == 'double' and 'max' in sp and abs(sp['max']) < 1e300:
+                    sp['max'] = sp['max'] + rng.choice([1.0, 10.0, abs(sp['max'])])
+                    cfg[ms['name']][p['name']] = {'max': sp['max']}
+                elif sp['type'] == 'int' and sp['max'] < (1 << 60):
+                    sp['max'] = sp['max'] + rng.choice([1, 5, 1000])
+                    cfg[ms['name']][p['name']] = {'max': sp['max']}
+                elif sp['type'] == 'string' and 'maxchars' in sp and sp['maxchars'] < 500:
+                    sp['maxchars'] = sp['maxchars'] + rng.choice([1, 3])
+                    cfg[ms['name']][p['name']] = {'maxchars': sp['maxchars']}
+                else:
+                    continue
+                r.count('parameters_with_configured_wider_datatype')
             if not ms['export'] and rng.random() < 0.6:
                 # an unexported module whose configuration asks for the export of single accessibles: still nothing of
                 # the module is described or reachable
